@@ -599,16 +599,60 @@ class Exec(Engine):
         self.used_lemmas = getattr(self, "used_lemmas", []) + [lem.key]
 
     # ------------------------------------------------------------------ function level
+    def case_valuations(self):
+        import itertools
+        paths = self.c.cases
+        if not paths:
+            return [()]
+        return list(itertools.product([True, False], repeat=len(paths)))
+
+    def apply_case(self, st, valuation):
+        """Fix Boolean parameter fields to constants: the formulas of each case then simplify syntactically."""
+        label = []
+        for path, val in zip(self.c.cases, valuation):
+            parts = path.split(".")
+            v = st.vars[parts[0]]
+            holder, key = None, None
+            for a in parts[1:]:
+                holder, key = v, a
+                v = v.x[a]
+            newv = vbool(val)
+            if v.t[0] == "opt":
+                newv = V(v.t, (v.x[0], vbool(val)))
+            elif v.t[0] != "bool":
+                raise ContractDrift(f"case path {path} is not Boolean")
+            if holder is None:
+                st.vars[parts[0]] = newv
+            else:
+                holder.x[key] = newv
+            label.append(f"{parts[-1]}={'T' if val else 'F'}")
+        return ",".join(label)
+
     def verify(self):
+        all_obls = []
+        self.n_paths = self.n_normal = 0
+        base_name = self.name
+        for valuation in self.case_valuations():
+            self.obls = []
+            self._verify_case(valuation, base_name)
+            all_obls += self.obls
+        self.name = base_name
+        self.obls = all_obls
+        return all_obls
+
+    def _verify_case(self, valuation, base_name):
         c = self.c
         st = State()
         for name, t in c.params.items():
             st.vars[name] = fresh(t, name)
+        label = self.apply_case(st, valuation)
+        self.name = base_name + (f"/case[{label}]" if label else "")
         for e in c.param_axioms(self, st):
             st.assume(e)
         st.old = {k: deep_copy(v) for k, v in st.vars.items()}
         for e, t in self.spec_conj(c.requires, st):
             st.assume(t)
+        self.apply_use(c.use_at_start, st)
         self.cover(st, "requires", self.fn.lineno)
         finals = self.run_block(self.fn.body, [st])
         n_norm = 0
@@ -652,8 +696,8 @@ class Exec(Engine):
                     self.oblige(s, t, "post", f"post.raise[{e[:60]}]/path{i}", self.fn.lineno)
             else:
                 raise OutOfSubset(f"stray flow {s.flow}")
-        self.n_paths = len(finals)
-        self.n_normal = n_norm
+        self.n_paths += len(finals)
+        self.n_normal += n_norm
         return self.obls
 
     def frame_obligations(self, s, i):
